@@ -831,6 +831,9 @@ pub fn minimise(def: &CheckDef, v: &VRec, tier: Tier) -> (VRec, bool, usize) {
         Err(_) => return (v.clone(), false, 0),
     };
     let orig = case.size();
+    if case.payload_bytes() > (256 << 20) {
+        return (v.clone(), false, orig);
+    }
     // the violation must reproduce in this process first
     let first = match still_fails(def, &v.scenario, &case, &v.class, &v.key, tier) {
         Some(x) => x,
